@@ -117,6 +117,7 @@ class Inst(object):
     def __init__(self, ci):
         self.ci = ci
         self.attrs = {}
+        self.closures = {}      # class name -> defining scope (closure)
 
     def __repr__(self):
         return 'Inst(%s)' % self.ci.name
@@ -417,7 +418,8 @@ class Interp(object):
         if isinstance(f, Func):
             return self.call_func(f, args, kwargs)
         if isinstance(f, ClassV):
-            return self.instantiate(f.ci, args, kwargs)
+            return self.instantiate(f.ci, args, kwargs,
+                                    getattr(f, 'closure', None))
         if isinstance(f, OpV):
             return self.apply_op(f, args, kwargs)
         if isinstance(f, Inst):
@@ -486,7 +488,7 @@ class Interp(object):
             ndef = len(fn.args.defaults)
             out_optional = has_out and ('out' not in pos or
                                         pos.index('out') >= len(pos) - ndef)
-            f = Func(fn, self.env_of(dc.rel), dc)
+            f = Func(fn, self.method_env(inst, dc), dc)
             if out is None:
                 if has_out and not out_optional:
                     # in-place only: default bridge allocates from the range
@@ -530,13 +532,20 @@ class Interp(object):
         raise Undecided('assign %r into %r' % (r, out))
 
     # instantiation --------------------------------------------------------------
-    def instantiate(self, ci, args, kwargs):
+    def instantiate(self, ci, args, kwargs, closure=None):
         inst = Inst(ci)
+        if closure is not None:
+            inst.closures[ci.name] = closure
         dc, init = self.model.lookup(ci, '__init__')
         if isinstance(init, ast.FunctionDef):
-            self.call_func(Func(init, self.env_of(dc.rel), dc), args, kwargs,
-                           inst)
+            self.call_func(Func(init, self.method_env(inst, dc), dc), args,
+                           kwargs, inst)
         return inst
+
+    def method_env(self, inst, dc):
+        if isinstance(inst, Inst) and dc.name in inst.closures:
+            return inst.closures[dc.name]
+        return self.env_of(dc.rel)
 
     # ---- attribute access ---------------------------------------------------
     def mangle(self, name, func):
@@ -556,7 +565,7 @@ class Interp(object):
                 return obj.attrs[key]
             dc, m = self.model.lookup(obj.ci, name)
             if isinstance(m, ast.FunctionDef):
-                f = Func(m, self.env_of(dc.rel), dc)
+                f = Func(m, self.method_env(obj, dc), dc)
                 if dc.is_property(name) or any(
                         isinstance(d, ast.Name) and d.id == 'property'
                         for d in m.decorator_list):
@@ -1514,6 +1523,8 @@ class Interp(object):
         raise Undecided('comparison %s' % ast.unparse(node))
 
     def equal(self, l, r, node):
+        if l is r:
+            return True
         if isinstance(l, SArr) and is_scalar(r):
             return SArr([self.truth_value(self.equal(x, r, node), node)
                          for x in l.items])
@@ -1885,6 +1896,12 @@ class Interp(object):
             if all(is_scalar(v) for v in vals_) and len(vals_) > 0 and all(
                     to_rat(v) == to_rat(vals_[0]) for v in vals_):
                 return vals_[0]
+        if name in ('max', 'min') and len(args) >= 1:
+            vals_ = args[0] if len(args) == 1 else args
+            vals_ = vals_.items if isinstance(vals_, SArr) else vals_
+            if len(vals_) >= 2 and all(is_scalar(v) for v in vals_) and \
+                    not all(isinstance(v, int) for v in vals_):
+                return Rat.var(satom(name, *[to_rat(v) for v in vals_]))
         if name in ('max', 'min', 'sum'):
             vals = args[0] if len(args) == 1 else args
             if all(isinstance(v, int) for v in vals):
